@@ -4,6 +4,7 @@ package main
 // agree on the byte layout, version and extension handling.
 
 import (
+	"go/constant"
 	"fmt"
 	"go/token"
 	"go/types"
@@ -46,7 +47,7 @@ func checkC15(c *Ctx, e *Env) {
 				if strings.HasSuffix(pkg, "base58") && name == what {
 					return true
 				}
-				if sc := ci.Common().StaticCallee(); sc != nil && !seen[sc] && sc.Signature.Recv() == nil && fnPkgPath(sc) == fnPkgPath(fn) && len(sc.Blocks) > 0 {
+				if sc := ci.Common().StaticCallee(); sc != nil && !seen[sc] && sc.Signature.Recv() == nil && isRepoPkgPath(fnPkgPath(sc)) && len(sc.Blocks) > 0 {
 					seen[sc] = true
 					work = append(work, sc)
 				}
@@ -784,20 +785,34 @@ func ruleExtAlphabet(c *Ctx, m *Model) {
 	// can contain the separator the parser splits at.
 	const sep = int64('.')
 	type loopAt struct {
-		fn  *ssa.Function
-		hdr *ssa.BasicBlock
-		ch  ssa.Value
+		fn    *ssa.Function
+		hdr   *ssa.BasicBlock
+		ch    ssa.Value
+		binds map[*ssa.Parameter]*ssa.Function // function-valued parameters of fn as bound by the caller
 	}
 	var loops []loopAt
 	seen := map[*ssa.Function]bool{}
-	var visit func(fn *ssa.Function, extParams map[int]bool, depth int)
-	visit = func(fn *ssa.Function, extParams map[int]bool, depth int) {
+	var visit func(fn *ssa.Function, extParams map[int]bool, fnParams map[int]*ssa.Function, depth int)
+	visit = func(fn *ssa.Function, extParams map[int]bool, fnParams map[int]*ssa.Function, depth int) {
 		if seen[fn] || depth > 3 {
 			return
 		}
 		seen[fn] = true
 		t := NewTermer(fn)
+		binds := map[*ssa.Parameter]*ssa.Function{}
+		for i, q := range fn.Params {
+			if f := fnParams[i]; f != nil {
+				binds[q] = f
+			}
+		}
 		isExt := func(v ssa.Value) bool {
+			for i := 0; i < 3; i++ { // []rune(ext), []byte(ext)
+				if cv, ok := v.(*ssa.Convert); ok {
+					v = cv.X
+					continue
+				}
+				break
+			}
 			if prm, ok := v.(*ssa.Parameter); ok {
 				for i, q := range fn.Params {
 					if q == prm && extParams[i] {
@@ -821,20 +836,24 @@ func ruleExtAlphabet(c *Ctx, m *Model) {
 						}
 						for _, r2 := range *nx.Referrers() {
 							if ex, ok := r2.(*ssa.Extract); ok && ex.Index == 2 {
-								loops = append(loops, loopAt{fn, nx.Block(), ex})
+								loops = append(loops, loopAt{fn, nx.Block(), ex, binds})
 							}
 						}
 					}
 				case *ssa.Call:
-					if sc := x.Call.StaticCallee(); sc != nil && fnPkgPath(sc) == fnPkgPath(root) && len(sc.Blocks) > 0 {
+					if sc := x.Call.StaticCallee(); sc != nil && isRepoPkgPath(fnPkgPath(sc)) && len(sc.Blocks) > 0 {
 						ep := map[int]bool{}
+						fp := map[int]*ssa.Function{}
 						for i, a := range x.Call.Args {
 							if isExt(a) {
 								ep[i] = true
 							}
+							if f := funcValueOf(a, binds); f != nil {
+								fp[i] = f
+							}
 						}
 						if len(ep) > 0 {
-							visit(sc, ep, depth+1)
+							visit(sc, ep, fp, depth+1)
 						}
 					}
 				}
@@ -845,13 +864,21 @@ func ruleExtAlphabet(c *Ctx, m *Model) {
 			for _, in := range b.Instrs {
 				if ix, ok := in.(*ssa.Index); ok && isExt(ix.X) {
 					if h := loopHeaderOf(fn, b); h != nil {
-						loops = append(loops, loopAt{fn, h, ix})
+						loops = append(loops, loopAt{fn, h, ix, binds})
+					}
+				}
+				// element of []rune(ext) / []byte(ext): load of &xs[i]
+				if ld, ok := in.(*ssa.UnOp); ok && ld.Op == token.MUL {
+					if ia, isIA := ld.X.(*ssa.IndexAddr); isIA && isExt(ia.X) {
+						if h := loopHeaderOf(fn, b); h != nil {
+							loops = append(loops, loopAt{fn, h, ld, binds})
+						}
 					}
 				}
 			}
 		}
 	}
-	visit(root, nil, 0)
+	visit(root, nil, nil, 0)
 	if len(loops) == 0 {
 		c.Violate("C15.CODEC", "extension#alphabet", p.Pos(root.Pos()), "no loop over the characters of the file extension found in ContentHash_Raw.Validate or the helpers it hands the extension to: nothing keeps the separator '.' out of a validated extension", nil)
 		return
@@ -880,6 +907,28 @@ func ruleExtAlphabet(c *Ctx, m *Model) {
 					continue
 				}
 				break
+			}
+			if call, isCall := v.(*ssa.Call); isCall && !call.Call.IsInvoke() {
+				// a predicate applied to the character (named function, or a function value the caller
+				// bound): evaluated concretely at the separator
+				callee := call.Call.StaticCallee()
+				if callee == nil {
+					callee = funcValueOf(call.Call.Value, lp.binds)
+				}
+				if callee != nil && len(callee.Blocks) > 0 && len(callee.Params) == len(call.Call.Args) {
+					args := map[ssa.Value]int64{}
+					for i, a := range call.Call.Args {
+						if isCh(a) {
+							args[callee.Params[i]] = sep
+						}
+					}
+					if len(args) > 0 {
+						if ct, cf := concreteBool(callee, args, 0); ct != cf {
+							return ct != neg, true
+						}
+					}
+				}
+				return false, false
 			}
 			bo, ok := v.(*ssa.BinOp)
 			if !ok {
@@ -968,6 +1017,187 @@ func ruleExtAlphabet(c *Ctx, m *Model) {
 	} else {
 		c.Hold("C15.CODEC", "extension#alphabet", p.Pos(root.Pos()), fmt.Sprintf("%d character loop(s) over the file extension: no path accepts the separator '.' (0x2e)", len(loops)), nil)
 	}
+}
+
+// funcValueOf: the function a function-typed value denotes — a named function, a closure without
+// captured variables, or a parameter the caller bound to one.
+func funcValueOf(v ssa.Value, binds map[*ssa.Parameter]*ssa.Function) *ssa.Function {
+	for i := 0; i < 4; i++ {
+		switch y := v.(type) {
+		case *ssa.Function:
+			return y
+		case *ssa.MakeClosure:
+			if f, ok := y.Fn.(*ssa.Function); ok && len(y.Bindings) == 0 {
+				return f
+			}
+			return nil
+		case *ssa.ChangeType:
+			v = y.X
+		case *ssa.Parameter:
+			return binds[y]
+		default:
+			return nil
+		}
+	}
+	return nil
+}
+
+// concreteBool evaluates a small pure function returning bool with some integer parameters fixed:
+// integer comparisons and boolean connectives over known values are computed, every condition that is
+// not known goes both ways. Returns whether the function can return true / can return false.
+func concreteBool(fn *ssa.Function, known map[ssa.Value]int64, depth int) (canTrue, canFalse bool) {
+	if depth > 3 || len(fn.Blocks) == 0 {
+		return true, true
+	}
+	steps := 0
+	type cv struct {
+		i     int64
+		b     bool
+		isB   bool
+		known bool
+	}
+	var run func(b, prev *ssa.BasicBlock, env map[ssa.Value]cv)
+	eval := func(v ssa.Value, env map[ssa.Value]cv) cv {
+		if c, ok := v.(*ssa.Const); ok && c.Value != nil {
+			switch c.Value.Kind() {
+			case constant.Bool:
+				return cv{b: constant.BoolVal(c.Value), isB: true, known: true}
+			case constant.Int:
+				if n, exact := constant.Int64Val(c.Value); exact {
+					return cv{i: n, known: true}
+				}
+			}
+			return cv{}
+		}
+		return env[v]
+	}
+	run = func(b, prev *ssa.BasicBlock, env map[ssa.Value]cv) {
+		steps++
+		if steps > 4000 || (canTrue && canFalse) {
+			canTrue, canFalse = true, true
+			return
+		}
+		for _, in := range b.Instrs {
+			switch y := in.(type) {
+			case *ssa.Phi:
+				for i, p := range b.Preds {
+					if p == prev {
+						env[y] = eval(y.Edges[i], env)
+					}
+				}
+			case *ssa.Convert:
+				env[y] = eval(y.X, env)
+			case *ssa.ChangeType:
+				env[y] = eval(y.X, env)
+			case *ssa.UnOp:
+				if x := eval(y.X, env); y.Op == token.NOT && x.known && x.isB {
+					env[y] = cv{b: !x.b, isB: true, known: true}
+				}
+			case *ssa.BinOp:
+				l, r := eval(y.X, env), eval(y.Y, env)
+				if !l.known || !r.known || l.isB != r.isB {
+					continue
+				}
+				if l.isB {
+					switch y.Op {
+					case token.EQL:
+						env[y] = cv{b: l.b == r.b, isB: true, known: true}
+					case token.NEQ:
+						env[y] = cv{b: l.b != r.b, isB: true, known: true}
+					}
+					continue
+				}
+				var res bool
+				ok := true
+				switch y.Op {
+				case token.LSS:
+					res = l.i < r.i
+				case token.GTR:
+					res = l.i > r.i
+				case token.LEQ:
+					res = l.i <= r.i
+				case token.GEQ:
+					res = l.i >= r.i
+				case token.EQL:
+					res = l.i == r.i
+				case token.NEQ:
+					res = l.i != r.i
+				case token.ADD:
+					env[y], ok = cv{i: l.i + r.i, known: true}, false
+				case token.SUB:
+					env[y], ok = cv{i: l.i - r.i, known: true}, false
+				default:
+					ok = false
+				}
+				if ok {
+					env[y] = cv{b: res, isB: true, known: true}
+				}
+			case *ssa.Call:
+				sc := y.Call.StaticCallee()
+				if sc == nil || len(sc.Blocks) == 0 || len(sc.Params) != len(y.Call.Args) || sc.Signature.Results().Len() != 1 {
+					continue
+				}
+				if bt, isBasic := sc.Signature.Results().At(0).Type().Underlying().(*types.Basic); !isBasic || bt.Kind() != types.Bool {
+					continue
+				}
+				sub := map[ssa.Value]int64{}
+				for i, a := range y.Call.Args {
+					if x := eval(a, env); x.known && !x.isB {
+						sub[sc.Params[i]] = x.i
+					}
+				}
+				if len(sub) == len(sc.Params) && len(sub) > 0 {
+					if ct, cf := concreteBool(sc, sub, depth+1); ct != cf {
+						env[y] = cv{b: ct, isB: true, known: true}
+					}
+				}
+			case *ssa.If:
+				c := eval(y.Cond, env)
+				if c.known && c.isB {
+					if c.b {
+						run(b.Succs[0], b, env)
+					} else {
+						run(b.Succs[1], b, env)
+					}
+					return
+				}
+				e2 := map[ssa.Value]cv{}
+				for k, v := range env {
+					e2[k] = v
+				}
+				run(b.Succs[0], b, env)
+				run(b.Succs[1], b, e2)
+				return
+			case *ssa.Jump:
+				run(b.Succs[0], b, env)
+				return
+			case *ssa.Return:
+				if len(y.Results) == 1 {
+					if r := eval(y.Results[0], env); r.known && r.isB {
+						if r.b {
+							canTrue = true
+						} else {
+							canFalse = true
+						}
+						return
+					}
+				}
+				canTrue, canFalse = true, true
+				return
+			case *ssa.Panic:
+				return
+			}
+		}
+	}
+	env := map[ssa.Value]cv{}
+	for k, v := range known {
+		env[k] = cv{i: v, known: true}
+	}
+	run(fn.Blocks[0], nil, env)
+	if !canTrue && !canFalse {
+		return true, true
+	}
+	return canTrue, canFalse
 }
 
 // loopHeaderOf: the innermost natural-loop header whose body contains b (nil when b is in no loop).
